@@ -10,8 +10,6 @@ open Avo.Attr
 
 /-! ## 5. Lines -/
 
-def NoNL (t : Txt) : Prop := '\n' ∉ t
-
 theorem splitNL_ne_nil (t : Txt) : splitNL t ≠ [] := by
   induction t with
   | nil => simp [splitNL]
@@ -96,6 +94,19 @@ theorem commentText_prefix (t : Txt) : ∃ r, commentText t = '/' :: '/' :: r :=
   rw [trimRight_cons _ _ (by decide), trimRight_cons _ _ (by decide)]
   exact ⟨_, rfl⟩
 
+theorem slashes_of_strip (t : Txt) (h : (stripPrefix ['/', '/'] t).isSome = true) :
+    ∃ r, t = '/' :: '/' :: r := by
+  match t with
+  | [] => simp [stripPrefix] at h
+  | [a] =>
+    by_cases ha : '/' = a <;> simp [stripPrefix, ha] at h
+  | a :: b :: r =>
+    by_cases ha : '/' = a
+    · by_cases hb : '/' = b
+      · exact ⟨r, by rw [← ha, ← hb]⟩
+      · simp [stripPrefix, ha, hb] at h
+    · simp [stripPrefix, ha] at h
+
 theorem lexLine_slashes (r : Txt) : lexLine ('/' :: '/' :: r) = .top ('/' :: '/' :: r) := by
   simp [lexLine, lexTop, stripPrefix]
 
@@ -103,33 +114,6 @@ theorem stripPrefix_append (p t : Txt) : stripPrefix p (p ++ t) = some t := by
   induction p with
   | nil => rfl
   | cons a p ih => simp [stripPrefix, ih]
-
-/-- No reserved line prefix: what makes a line a label line. -/
-def LabelOK (l : Txt) : Prop :=
-  let t := l ++ [':']
-  t.head? ≠ some '\t' ∧
-  stripPrefix ['/', '/'] t = none ∧ stripPrefix ['T', 'E', 'X', 'T', ' ', '·'] t = none ∧
-  stripPrefix ['#', 'i', 'n', 'c', 'l', 'u', 'd', 'e', ' '] t = none ∧ stripPrefix ['D', 'A', 'T', 'A', ' '] t = none ∧
-  stripPrefix ['G', 'L', 'O', 'B', 'L', ' '] t = none
-
-/-- Token hypotheses of one structured line of an assembly file. -/
-def WFLine : SLine → Prop
-  | .blank => True
-  | .comment _ => True
-  | .raw t => ∃ r, t = '/' :: '/' :: r
-  | .incl _ => True
-  | .text n _ _ _ => '(' ∉ n
-  | .instr o s ops w =>
-    let ows := opcodeWithSuffixes o s
-    ' ' ∉ ows ∧ ows.head? ≠ some '/' ∧ (joinWith [',', ' '] ops).head? ≠ some ' ' ∧
-      (ops ≠ [] → ows.length ≤ w)
-  | .label l => LabelOK l
-  | .icomment _ => True
-  | .data .. => True
-  | .globl .. => True
-  | .pkg _ => False
-  | .pragma .. => False
-  | .decl _ => False
 
 theorem stripPrefix_slash_none (t : Txt) (h : t.head? ≠ some '/') :
     stripPrefix ['/', '/', ' '] t = none := by
@@ -148,7 +132,7 @@ theorem lex_render_line (l : SLine) (h : WFLine l) : lexLine (renderLine l) = ab
     obtain ⟨r, hr⟩ := commentText_prefix t
     simp only [renderLine, abstract, hr, lexLine_slashes]
   | raw t =>
-    obtain ⟨r, hr⟩ := h
+    obtain ⟨r, hr⟩ := slashes_of_strip t h
     simp only [renderLine, abstract, hr, lexLine_slashes]
   | incl p => simp [renderLine, abstract, lexLine, lexTop, stripPrefix]
   | text n c f a =>
@@ -275,9 +259,6 @@ theorem nonl_flatMap_cons (c : Char) (hc : c ≠ '\n') (xs : List Txt) (h : ∀ 
     simp only [List.flatMap_cons, nonl_append, nonl_cons]
     exact ⟨⟨hc, h x (by simp)⟩, ih (fun z hz => h z (List.mem_cons_of_mem _ hz))⟩
 
-/-- Flag names of the attribute table contain no newline. -/
-def NamesOK (names : List (Nat × String)) : Prop := ∀ p ∈ names, NoNL p.2.toList
-
 theorem lookupName_mem (names : List (Nat × String)) (v : Nat) (n : String)
     (h : lookupName names v = some n) : ∃ p ∈ names, p.2 = n := by
   unfold lookupName at h
@@ -375,14 +356,6 @@ theorem le_blockWidth (buf : List Instr) (i : Instr) (hi : i ∈ buf) (ho : i.op
     · have := ih h
       split <;> omega
 
-/-- Token hypotheses of an instruction. -/
-structure WFInstr (i : Instr) : Prop where
-  nonl : NoNL i.ows
-  nosp : ' ' ∉ i.ows
-  noslash : i.ows.head? ≠ some '/'
-  ops_nonl : ∀ o ∈ i.operands, NoNL o
-  ops_head : (joinWith [',', ' '] i.operands).head? ≠ some ' '
-
 def LineOK (l : SLine) : Prop := WFLine l ∧ NoNL (renderLine l)
 
 theorem lineOK_instr (i : Instr) (w : Nat) (h : WFInstr i) (hw : i.operands ≠ [] → i.ows.length ≤ w) :
@@ -401,11 +374,6 @@ theorem lineOK_flushBlock (buf : List Instr) (h : ∀ i ∈ buf, WFInstr i) :
   obtain ⟨i, hi, rfl⟩ := List.mem_map.1 hl
   exact lineOK_instr i _ (h i hi)
     (fun ho => Nat.le_trans (length_le_byteLen _) (le_blockWidth buf i hi ho))
-
-def WFNode : Node → Prop
-  | .instr i => WFInstr i
-  | .label l => NoNL l ∧ LabelOK l
-  | .comment ls => ∀ l ∈ ls, NoNL l
 
 theorem lineOK_ensureClear (c : Bool) : ∀ l ∈ ensureClear c, LineOK l := by
   cases c <;> simp [ensureClear, LineOK, WFLine, renderLine, nonl_nil]
@@ -451,33 +419,6 @@ theorem lineOK_printNodes (ns : List Node) (buf : List Instr) (clear : Bool)
       · exact lineOK_ensureClear _ l hl
       · exact ⟨trivial, by simp [renderLine, nonl_cons, h0 t ht]⟩
       · exact ih [] true (by simp) hn' l hl
-
-structure WFFn (f : Function) : Prop where
-  name_nonl : NoNL f.name
-  name_paren : '(' ∉ f.name
-  stub : NoNL f.stub
-  isa : ∀ x ∈ f.isa, NoNL x
-  nodes : ∀ n ∈ f.nodes, WFNode n
-
-structure WFGl (g : Global) : Prop where
-  sym : NoNL g.sym
-  vals : ∀ d ∈ g.data, NoNL d.value
-
-def WFSec : Sec → Prop
-  | .fn f => WFFn f
-  | .gl g => WFGl g
-
-/-- The explicit token hypotheses of `print_faithful`: no newline in any
-token; names without `(`; opcodes without space, not starting with `/`;
-operand text not starting with a space; labels not starting with a reserved
-line prefix; constraint lines are `//` comments. -/
-structure WFFile (names : List (Nat × String)) (cfg : Config) (f : File) : Prop where
-  names : NamesOK names
-  cfgname : NoNL cfg.name
-  argv : ∀ a ∈ cfg.argv.getD [], NoNL a
-  cons : ∀ c ∈ f.constraints, NoNL c ∧ ∃ r, c = '/' :: '/' :: r
-  incl : ∀ p ∈ f.includes, NoNL p
-  secs : ∀ s ∈ f.sections, WFSec s
 
 theorem lineOK_printFunction (names) (hn : NamesOK names) (f : Function) (h : WFFn f) :
     ∀ l ∈ printFunction names f, LineOK l := by
